@@ -69,7 +69,7 @@ def replay_failure(h, prop, logdir):
     res, out = native_run(h, tests)
     open(os.path.join(logdir, h.short + ".native.log"), "w").write(out)
     good = [t for t in tests if res.get(t[2])]
-    rdir = os.path.join(VERIF, "replays", prop)
+    rdir = os.path.join(os.environ.get("VERIF_REPLAY_DIR", os.path.join(VERIF, "replays")), prop)
     os.makedirs(rdir, exist_ok=True)
     path = os.path.join(rdir, h.short + ".rs")
     with open(path, "w") as f:
